@@ -20,6 +20,11 @@
 #include <sstream>
 #include <stdexcept>
 
+#ifdef BLOCH_VERIF
+#include <exception>
+#include "bloch/support/verif_hooks.hpp"
+#endif
+
 namespace bloch::runtime {
 
     using support::BlochError;
@@ -29,7 +34,64 @@ namespace bloch::runtime {
     // TODO(REFACTOR): inject RNG via a Strategy/adapter so simulator is
     // deterministic under test and replaceable by other random sources.
 
+#ifdef BLOCH_VERIF
+    void verifReseed(std::uint64_t seed) {
+        std::seed_seq seq{static_cast<std::uint32_t>(seed), static_cast<std::uint32_t>(seed >> 32)};
+        rng.seed(seq);
+    }
+    namespace {
+        // Fires simPre on entry and simPost on normal exit of a public simulator operation.
+        struct VerifSimScope {
+            const QasmSimulator& sim;
+            verif::SimEvent ev;
+            int uncaught;
+            VerifSimScope(const QasmSimulator& s, const char* op, int q0, int q1, double theta)
+                : sim(s), uncaught(std::uncaught_exceptions()) {
+                ev.op = op;
+                ev.q0 = q0;
+                ev.q1 = q1;
+                ev.theta = theta;
+                auto& h = verif::hooks();
+                if (h.simPre)
+                    h.simPre(sim, ev);
+            }
+            ~VerifSimScope() {
+                if (std::uncaught_exceptions() != uncaught)
+                    return;
+                auto& h = verif::hooks();
+                if (h.simPost)
+                    h.simPost(sim, ev);
+                if (h.trace || h.onEvent) {
+                    std::string b = std::string("\"op\":\"") + ev.op + "\",\"q0\":" +
+                                    std::to_string(ev.q0) + ",\"q1\":" + std::to_string(ev.q1) +
+                                    ",\"theta\":" + verif::fmtDouble(ev.theta) +
+                                    ",\"out\":" + std::to_string(ev.outcome) +
+                                    ",\"p1\":" + verif::fmtDouble(ev.p1) +
+                                    ",\"r\":" + verif::fmtDouble(ev.r) +
+                                    ",\"n\":" + std::to_string(sim.verifQubits());
+                    h.emit("sim", b);
+                    if (h.stateMode == 2 && sim.verifQubits() <= 10) {
+                        std::string st = "\"re\":[";
+                        const auto& v = sim.verifState();
+                        for (size_t i = 0; i < v.size(); ++i)
+                            st += (i ? "," : "") + verif::fmtDouble(v[i].real());
+                        st += "],\"im\":[";
+                        for (size_t i = 0; i < v.size(); ++i)
+                            st += (i ? "," : "") + verif::fmtDouble(v[i].imag());
+                        st += "]";
+                        h.emit("state", st);
+                    }
+                }
+            }
+        };
+    }  // namespace
+#define BLOCH_VERIF_SIM_OP(op, q0, q1, theta) VerifSimScope verifScope(*this, op, q0, q1, theta)
+#else
+#define BLOCH_VERIF_SIM_OP(op, q0, q1, theta)
+#endif
+
     int QasmSimulator::allocateQubit() {
+        BLOCH_VERIF_SIM_OP("alloc", m_qubits, -1, 0.0);
         // Grow the state by a factor of two, keeping existing amplitudes
         // in the |...0> subspace and zeroing the |...1> subspace.
         int index = m_qubits++;
@@ -67,6 +129,7 @@ namespace bloch::runtime {
     }
 
     void QasmSimulator::h(int q) {
+        BLOCH_VERIF_SIM_OP("h", q, -1, 0.0);
         const std::array<std::complex<double>, 4> m{1 / std::sqrt(2.0), 1 / std::sqrt(2.0),
                                                     1 / std::sqrt(2.0), -1 / std::sqrt(2.0)};
         applySingleQubitGate(q, m);
@@ -75,6 +138,7 @@ namespace bloch::runtime {
     }
 
     void QasmSimulator::x(int q) {
+        BLOCH_VERIF_SIM_OP("x", q, -1, 0.0);
         const std::array<std::complex<double>, 4> m{0, 1, 1, 0};
         applySingleQubitGate(q, m);
         if (m_logOps)
@@ -82,6 +146,7 @@ namespace bloch::runtime {
     }
 
     void QasmSimulator::y(int q) {
+        BLOCH_VERIF_SIM_OP("y", q, -1, 0.0);
         const std::array<std::complex<double>, 4> m{0.0, std::complex<double>(0, -1),
                                                     std::complex<double>(0, 1), 0.0};
         applySingleQubitGate(q, m);
@@ -90,6 +155,7 @@ namespace bloch::runtime {
     }
 
     void QasmSimulator::z(int q) {
+        BLOCH_VERIF_SIM_OP("z", q, -1, 0.0);
         const std::array<std::complex<double>, 4> m{1.0, 0.0, 0.0, -1.0};
         applySingleQubitGate(q, m);
         if (m_logOps)
@@ -97,6 +163,7 @@ namespace bloch::runtime {
     }
 
     void QasmSimulator::rx(int q, double t) {
+        BLOCH_VERIF_SIM_OP("rx", q, -1, t);
         double ct = std::cos(t / 2);
         double st = std::sin(t / 2);
         const std::array<std::complex<double>, 4> m{ct, std::complex<double>(0, -st),
@@ -107,6 +174,7 @@ namespace bloch::runtime {
     }
 
     void QasmSimulator::ry(int q, double t) {
+        BLOCH_VERIF_SIM_OP("ry", q, -1, t);
         double ct = std::cos(t / 2);
         double st = std::sin(t / 2);
         const std::array<std::complex<double>, 4> m{ct, -st, st, ct};
@@ -116,6 +184,7 @@ namespace bloch::runtime {
     }
 
     void QasmSimulator::rz(int q, double t) {
+        BLOCH_VERIF_SIM_OP("rz", q, -1, t);
         std::complex<double> epos = std::exp(std::complex<double>(0, -t / 2));
         std::complex<double> eneg = std::exp(std::complex<double>(0, t / 2));
         const std::array<std::complex<double>, 4> m{epos, 0.0, 0.0, eneg};
@@ -125,6 +194,7 @@ namespace bloch::runtime {
     }
 
     void QasmSimulator::cx(int control, int target) {
+        BLOCH_VERIF_SIM_OP("cx", control, target, 0.0);
         ensureQubitActive(control);
         ensureQubitActive(target);
         // Swap amplitudes where control is 1 and target is 0 to flip target,
@@ -155,6 +225,7 @@ namespace bloch::runtime {
     }
 
     void QasmSimulator::reset(int q) {
+        BLOCH_VERIF_SIM_OP("reset", q, -1, 0.0);
         if (q < 0 || q >= m_qubits) {
             throw BlochError(ErrorCategory::Runtime, 0, 0,
                              "qubit index " + std::to_string(q) + " is out of range");
@@ -198,6 +269,7 @@ namespace bloch::runtime {
     }
 
     int QasmSimulator::measure(int q) {
+        BLOCH_VERIF_SIM_OP("measure", q, -1, 0.0);
         ensureQubitActive(q);
         // Compute probability of |1>, sample, and collapse the state accordingly.
         size_t bit = size_t{1} << q;
@@ -207,7 +279,20 @@ namespace bloch::runtime {
                 p1 += std::norm(m_state[i]);
         std::uniform_real_distribution<double> dist(0.0, 1.0);
         double r = dist(rng);
+#ifdef BLOCH_VERIF
+        {
+            double scripted = 0.0;
+            if (verif::hooks().draw && verif::hooks().draw(scripted))
+                r = scripted;
+            verifScope.ev.p1 = p1;
+            verifScope.ev.r = r;
+            verifScope.ev.drew = true;
+        }
+#endif
         int res = r < p1 ? 1 : 0;
+#ifdef BLOCH_VERIF
+        verifScope.ev.outcome = res;
+#endif
         double norm = std::sqrt(res ? p1 : 1 - p1);
         for (size_t i = 0; i < m_state.size(); ++i) {
             if (((i & bit) ? 1 : 0) != res)
